@@ -3396,11 +3396,16 @@ def rt5(ctx):
     r = RuleResult("RT-5", "src/diacritics.json is ordered so that a diacritic that can establish another's prerequisite is written before it (the renderer writes in table order, the reader checks prerequisites left to right)", floor=15)
     lib = ctx.lib
     dj = json.loads(ctx.read("src/diacritics.json"))
-    g = ctx.fn(lib, "asca::seg::Segment::get_as_grapheme")
-    loops = [x for x in hirq.walk(g.hir["body"]) if x["e"] == "mcall" and x["name"] in ("iter", "into_iter") and "DIACRITS" in json.dumps(x["recv"])[:400]]
-    rev = [x for x in hirq.walk(g.hir["body"]) if x["e"] == "mcall" and x["name"] in ("rev", "sort", "sort_by", "sort_by_key") and "DIACRITS" in json.dumps(x)[:2000]]
+    ctx.fn(lib, "asca::seg::Segment::get_as_grapheme")
+    loops, rev = [], []
+    for g in lib.bodies:
+        # the search may live in a helper of get_as_grapheme: any Segment method that walks the table
+        if g.in_test_mod() or not g.hir or not g.path.startswith("asca::seg::"):
+            continue
+        loops += [x for x in hirq.walk(g.hir["body"]) if x["e"] == "mcall" and x["name"] in ("iter", "into_iter") and "DIACRITS" in json.dumps(x["recv"])[:400]]
+        rev += [x for x in hirq.walk(g.hir["body"]) if x["e"] == "mcall" and x["name"] in ("rev", "sort", "sort_by", "sort_by_key") and "DIACRITS" in json.dumps(x)[:2000]]
     if not loops:
-        raise AnchorMissing("RT-5: get_as_grapheme no longer iterates DIACRITS")
+        raise AnchorMissing("RT-5: no function of asca::seg iterates DIACRITS any more")
     if rev:
         raise AnchorMissing("RT-5: get_as_grapheme iterates DIACRITS in another order than the table's (%s): the order rule no longer describes it" % rev[0]["name"])
     n = 0
@@ -3419,4 +3424,99 @@ def rt5(ctx):
     if n < 15:
         raise AnchorMissing("RT-5: %d (provider, dependent) pairs in diacritics.json (expected >= 15)" % n)
     r.analysed = {"pairs": n, "diacritics": len(dj)}
+    return r
+
+
+
+# ---------------------------------------------------------------- RT-6: a diacritic is offered only if the reader will accept it
+
+def rt6(ctx):
+    """The renderer's diacritic search: `for (cand_seg, ..) in candidates { let mut buf_seg = cand_seg; for d in DIACRITS { if
+    self.match_modifiers(&d.prereqs) .. { buf_seg.apply_diacritic_payload(..) .. } } }`. The reader checks a diacritic's
+    prerequisites on the segment built so far, which ends as `self`. The search therefore tests them on the target
+    (`self`) or on the running segment (`buf_seg`, the binding the payloads are applied to) -- never on the loop-invariant
+    base candidate, whose voicing / syllabicity an earlier diacritic of the same spelling may already have changed."""
+    r = RuleResult("RT-6", "renderer's diacritic search: prerequisites are tested on the target segment or on the running segment, not on the unmodified base candidate", floor=1)
+    lib = ctx.lib
+    n = 0
+    for g in lib.bodies:
+        if g.in_test_mod() or not g.hir or g.kind == "closure" or not g.path.startswith("asca::seg::"):
+            continue
+        running = set()
+        for x in hirq.walk(g.hir["body"]):
+            if x["e"] == "mcall" and x["name"] in ("apply_diacritic_payload", "check_and_apply_diacritic"):
+                rv = hirq.strip(x["recv"])
+                if rv.get("e") == "path" and "hid" in rv:
+                    running.add(rv["hid"])
+        k = 0
+        for x in hirq.walk(g.hir["body"]):
+            if x["e"] == "mcall" and x["name"] == "match_modifiers" and x["args"] and any(y["e"] == "field" and y["name"] == "prereqs" for y in hirq.walk(x["args"][0])):
+                if not running:
+                    continue
+                n += 1
+                rv = hirq.strip(x["recv"])
+                while isinstance(rv, dict) and rv.get("e") == "unary" and rv.get("op") == "Deref":
+                    rv = hirq.strip(rv["a"])
+                ok = rv.get("e") == "path" and (rv.get("local") == "self" or rv.get("hid") in running)
+                r.inst("%s: prerequisites #%d are tested on `%s`" % (g.path.rsplit("::", 1)[-1], k, rv.get("local") or rv.get("e")), fn_loc(g, x.get("ln")), "ok" if ok else "report")
+                if not ok:
+                    r.report("RT-6|%s|#%d" % (g.path.rsplit("::", 1)[-1], k), fn_loc(g, x.get("ln")), g.path,
+                             "the diacritic search tests a diacritic's prerequisites on `%s`, which is neither the segment being spelled nor the running segment the payloads are applied to: when an earlier diacritic of the spelling changes voicing or syllabicity, the member of a conditioned pair (ᵡ/ʶ, ˢ/ᶻ) that fits the *base* is written, and the reader rejects it (`n̥ᵡ` comes out as `n̥ʶ`)" % (rv.get("local") or "an expression"))
+                k += 1
+    if n < 1:
+        raise AnchorMissing("RT-6: no prerequisite test found in the renderer's diacritic search")
+    return r
+
+
+# ---------------------------------------------------------------- PUR-7: the words go through the pipeline as one list, unedited
+
+def pur7(ctx):
+    """asca::run is `parse_phrases(words) -> apply_rule_groups -> phrases_to_string`, and what it returns IS the list
+    phrases_to_string made. The list given to parse_phrases is the caller's word list itself, the applier gets what the
+    parser returned, the renderer gets what the applier returned: no stage in between filters, pads or re-aligns lines
+    (a filter on one side and a merge on the other never agree on every line -- `" "` vs `""`)."""
+    r = RuleResult("PUR-7", "asca::run: parse_phrases gets the caller's word list itself, apply_rule_groups what parse_phrases returned, phrases_to_string what apply_rule_groups returned, and run returns that list itself", floor=4)
+    lib = ctx.lib
+    b = ctx.fn(lib, "asca::run")
+    root = b.hir["body"]
+    binds = Bindings(root, b.hir.get("params"))
+    pnames = b.param_names or []
+    n = 0
+
+    def site(path):
+        xs = [x for x in hirq.walk(root) if x["e"] == "call" and (hirq.strip(x["f"]).get("path") or "") == path]
+        if len(xs) != 1:
+            raise AnchorMissing("PUR-7: asca::run calls %s %d times (expected once)" % (path, len(xs)))
+        return xs[0]
+
+    def judge(what, expr, want, ln):
+        nonlocal n
+        n += 1
+        srcs = _value_sources(expr, binds)
+        ok = srcs == {want}
+        r.inst("run: %s comes from %s only" % (what, want[1]), fn_loc(b, ln), "ok" if ok else "report")
+        if not ok:
+            extra = sorted("%s %s" % s for s in srcs if s != want)
+            r.report("PUR-7|run|%s" % what.split(" ")[0], fn_loc(b, ln), b.path,
+                     "%s is not simply %s: it is built from %s -- lines are dropped, padded or re-aligned between the stages, so entry i of the result is no longer the result of line i (a blank-line filter before parsing and a merge after rendering disagree on a line of spaces)"
+                     % (what, want[1], ", ".join(extra)[:300] or "nothing traceable"))
+    pp = site("asca::parse_phrases")
+    ap = site("asca::apply_rule_groups")
+    ps = site("asca::phrases_to_string")
+    words_param = pnames[1] if len(pnames) > 1 else None
+    judge("parse_phrases' word list", pp["args"][0], ("param", words_param), pp.get("ln"))
+    judge("apply_rule_groups' phrases", ap["args"][1], ("call", "asca::parse_phrases"), ap.get("ln"))
+    judge("phrases_to_string's phrases", ps["args"][0], ("call", "asca::apply_rule_groups"), ps.get("ln"))
+    # the returned list
+    rets = [root] + [y["a"] for y in hirq.walk(root) if y["e"] == "ret" and y.get("a") is not None and not y.get("exp")]
+    n += 1
+    srcs = set()
+    for v in rets:
+        srcs |= _value_sources(v, binds)
+    ok = srcs == {("call", "asca::phrases_to_string")}
+    r.inst("run: the returned list is the one phrases_to_string made", fn_loc(b), "ok" if ok else "report")
+    if not ok:
+        extra = sorted("%s %s" % s for s in srcs if s != ("call", "asca::phrases_to_string"))
+        r.report("PUR-7|run|returned", fn_loc(b), b.path,
+                 "asca::run does not return the list phrases_to_string made but one built from %s: entry i of the result is no longer tied to line i of the input (re-inserting skipped blank lines by a second, different blank test shifts every later word)" % (", ".join(extra)[:300] or "nothing traceable"))
     return r
